@@ -46,7 +46,8 @@ Nodes5(B) == {Node(s, A) : s \in B, A \in {Q \in SUBSET AL(B, 3) : Cardinality(Q
 TkvShapes == {Leaf(TKV(1)), Wrap(Leaf(TKV(1))), Assn(Leaf(TKV(1)), KV(1)),
               Node(Leaf(TKV(1)), {Assn(KV(1), Leaf(TKV(1)))}), Node(KV(1), {Assn(Leaf(TKV(1)), KV(1))})}
 \* a leaf holding a byte string whose bytes are themselves a CBOR item (h'182a' = the integer 42)
-BstrShapes == {Leaf(<<"cborhex", "42182a">>), Assn(KV(1), Leaf(<<"cborhex", "42182a">>)),
+BstrShapes == {Leaf(<<"str", "">>), Assn(Leaf(<<"str", "">>), Leaf(<<"str", "">>)), Node(Leaf(<<"str", "">>), {Assn(KV(1), Leaf(<<"str", "">>))}),
+               Leaf(<<"cborhex", "42182a">>), Assn(KV(1), Leaf(<<"cborhex", "42182a">>)),
                Node(Leaf(<<"cborhex", "4101">>), {Assn(KV(1), Leaf(<<"cborhex", "42182a">>))})}
 \* wrapped envelopes next to assertions: wrapped subject, wrapped object
 WrapNodes(B) == {Node(Wrap(s), {a}) : s \in B, a \in AL(B, 3)}
